@@ -3,17 +3,23 @@ C19 — mesh operators are exact on linear fields and respect mesh connectivity.
 
 Model: `Model/Mesh.lean` (tied to `src/pylife/mesh/{gradient,hotspot,meshmapping,surface}.py` by the
 correspondence check of `harness/c19.py`).  Real-number semantics; `np.linalg.inv` = adjugate / determinant,
-`np.linalg.lstsq` = normal equations.
+`np.linalg.lstsq(rcond=None)` = minimum-norm least squares with a relative rank cut-off `rtol` (`lstsq3`).
+Only the property theorems live here; the proofs are in `Proofs/Lemmas/Mesh*.lean`.
 -/
 import Proofs.Lemmas.Mesh
 import Proofs.Lemmas.MeshHotspot
 import Proofs.Lemmas.MeshRank
 import Proofs.Lemmas.MeshPipeline
+import Proofs.Lemmas.MeshLstsq
+import Proofs.Lemmas.MeshLstsqRank
+import Proofs.Lemmas.MeshG3D
+import Proofs.Lemmas.MeshMap
+import Proofs.Lemmas.MeshSurface
 
 namespace PylifeVerif.C19
 open PylifeVerif.Mesh
 
-/-! ## `gradient_3D`: shape-function gradients -/
+/-! ## (a) `gradient_3D`: shape-function gradients -/
 
 /-- Hexahedron: for `f = g·x + c` on the eight corners and an invertible Jacobian at the reference point `xi`
 (the real code skips the point when `np.linalg.inv` raises), `Σₐ fₐ ∂φₐ/∂x_k = g_k`.  Holds at every `xi`, in
@@ -21,24 +27,15 @@ particular at the eight corners `hexXi` where the code evaluates it. -/
 theorem hex_gradient_exact (h : Hex ℝ) (g : V3 ℝ) (c : ℝ)
     (hlin : ∀ q ∈ h.corners, q.f = g.dot q.p + c)
     (xi : V3 ℝ) (hdet : det3 (hexJ h xi) ≠ 0) :
-    hexGradAt h xi = g := by
-  have hz : isZero (det3 (hexJ h xi)) = false := (isZero_false_iff _).2 hdet
-  simp only [hexGradAt, hz, Bool.false_eq_true, if_false]
-  simp only [Hex.corners, List.mem_cons, List.not_mem_nil, or_false, forall_eq_or_imp, forall_eq] at hlin
-  obtain ⟨h1, h2, h3, h4, h5, h6, h7, h8⟩ := hlin
-  apply gradVec_eq_of_row _ _ _ _ hdet <;>
-    simp [Hex.corners, List.range, List.range.loop, hexDphi, hexJ, hexJ1, hexJ2, hexJ3, phi, dphi, hexAx, hexAy, hexAz,
-      h1, h2, h3, h4, h5, h6, h7, h8, V3.dot] <;> ring
+    hexGradAt h xi = g :=
+  Mesh.hex_gradient_exact h g c hlin xi hdet
 
 /-- All eight nodal gradients of a hexahedral element equal `g`. -/
 theorem hex_gradient_exact_all (h : Hex ℝ) (g : V3 ℝ) (c : ℝ)
     (hlin : ∀ q ∈ h.corners, q.f = g.dot q.p + c)
     (hdet : ∀ xi ∈ (hexXi : List (V3 ℝ)), det3 (hexJ h xi) ≠ 0) :
-    ∀ v ∈ hexGrad h, v = g := by
-  intro v hv
-  simp only [hexGrad, List.mem_map] at hv
-  obtain ⟨xi, hxi, rfl⟩ := hv
-  exact hex_gradient_exact h g c hlin xi (hdet xi hxi)
+    ∀ v ∈ hexGrad h, v = g :=
+  Mesh.hex_gradient_exact_all h g c hlin hdet
 
 example : hexGradAt (⟨⟨⟨0, 0, 0⟩, 1⟩, ⟨⟨1, 0, 0⟩, 3⟩, ⟨⟨1, 1, 0⟩, 6⟩, ⟨⟨0, 1, 0⟩, 4⟩,
     ⟨⟨0, 0, 1⟩, 0⟩, ⟨⟨1, 0, 1⟩, 2⟩, ⟨⟨1, 1, 1⟩, 5⟩, ⟨⟨0, 1, 1⟩, 3⟩⟩ : Hex ℝ) ⟨1, 0, 1⟩ = ⟨2, 3, -1⟩ := by
@@ -51,230 +48,311 @@ gradient is `g`. -/
 theorem simplex_gradient_exact (t : Tet ℝ) (g : V3 ℝ) (c : ℝ)
     (hlin : ∀ q ∈ t.corners, q.f = g.dot q.p + c)
     (hdet : det3 (tetJ t) ≠ 0) :
-    tetGradAt t = g := by
-  have hz : isZero (det3 (tetJ t)) = false := (isZero_false_iff _).2 hdet
-  simp only [tetGradAt, hz, Bool.false_eq_true, if_false]
-  simp only [Tet.corners, List.mem_cons, List.not_mem_nil, or_false, forall_eq_or_imp, forall_eq] at hlin
-  obtain ⟨h1, h2, h3, h4⟩ := hlin
-  apply gradVec_eq_of_row _ _ _ _ hdet <;>
-    simp [Tet.corners, List.range, List.range.loop, tetDphi, tetJ, h1, h2, h3, h4, V3.dot] <;> ring
+    tetGradAt t = g :=
+  Mesh.simplex_gradient_exact t g c hlin hdet
 
 example : tetGradAt (⟨⟨⟨0, 0, 0⟩, 1⟩, ⟨⟨2, 0, 0⟩, 5⟩, ⟨⟨0, 1, 0⟩, 4⟩, ⟨⟨0, 0, 1⟩, 0⟩⟩ : Tet ℝ) = ⟨2, 3, -1⟩ := by
   apply simplex_gradient_exact _ ⟨2, 3, -1⟩ 1
   · simp [Tet.corners, V3.dot]; norm_num
   · simp [tetJ, det3]
 
-/-! ## `gradient`: least squares -/
+/-- The Jacobians the code inverts are non-singular on a geometrically non-degenerate hexahedron: at each corner
+`det J` is the triple product of the three element edges that meet there (so the `hhex` hypotheses below are facts
+about the mesh geometry; `Mesh.hhex_of_triples`, `Mesh.tetJ_det`, `Mesh.htet_of_triple`). -/
+theorem hexJ_corner_det (h : Hex ℝ) :
+    (hexXi : List (V3 ℝ)).map (fun xi => det3 (hexJ h xi)) = hexCornerTriples h :=
+  Mesh.hexJ_corner_det_list h
 
-/-- Least squares: if the right-hand side is `A g` (differences of a linear field) and `AᵀA` is invertible
-(⇔ `A` has full column rank, `lstsq_full_rank`), the solution of the normal equations is `g`:
-`(AᵀA)⁻¹ Aᵀ (A g) = g`.  Non-planar branch of the model (some `Δz ≠ 0`). -/
-theorem lstsq_exact (A : List (V3 ℝ)) (g : V3 ℝ)
-    (hnp : ¬ ∀ a ∈ A, a.z = 0)
-    (hdet : det3 (normalMatrix A) ≠ 0) :
-    lstsq3 (A.map fun a => (a, a.dot g)) = g := by
-  have hall : (A.all fun a => isZero a.z) = false := by
-    rw [Bool.eq_false_iff]; intro hc
-    apply hnp; intro a ha
-    rw [List.all_eq_true] at hc
-    exact (isZero_iff _).1 (hc a ha)
-  simp only [lstsq3, List.map_map, Function.comp_def, List.map_id', hall, Bool.false_eq_true, if_false]
-  rw [normalRhs_linear]
-  exact inv3_mulVec_mulVec _ hdet g
+example : hexCornerTriples (⟨⟨⟨0, 0, 0⟩, 1⟩, ⟨⟨1, 0, 0⟩, 3⟩, ⟨⟨1, 1, 0⟩, 6⟩, ⟨⟨0, 1, 0⟩, 4⟩,
+    ⟨⟨0, 0, 1⟩, 0⟩, ⟨⟨1, 0, 1⟩, 2⟩, ⟨⟨1, 1, 1⟩, 5⟩, ⟨⟨0, 1, 1⟩, 3⟩⟩ : Hex ℝ) = [1, 1, 1, 1, 1, 1, 1, 1] := by
+  simp [hexCornerTriples, triple, V3.dot, V3.cross, V3.sub]
 
-/-- Planar mesh (every `Δz = 0`, so `∂f/∂z` is not determined): the minimum-norm solution is `(g_x, g_y, 0)`
-when the 2×2 normal matrix is invertible. -/
-theorem lstsq_exact_planar (A : List (V3 ℝ)) (g : V3 ℝ)
-    (hp : ∀ a ∈ A, a.z = 0)
-    (hdet : det2 (normalMatrix A).a11 (normalMatrix A).a12 (normalMatrix A).a21 (normalMatrix A).a22 ≠ 0) :
-    lstsq3 (A.map fun a => (a, a.dot g)) = ⟨g.x, g.y, 0⟩ := by
-  have hall : (A.all fun a => isZero a.z) = true := by
-    rw [List.all_eq_true]; intro a ha; exact (isZero_iff _).2 (hp a ha)
-  simp only [lstsq3, List.map_map, Function.comp_def, List.map_id', hall, if_true]
-  rw [normalRhs_linear]
-  have h13 : (normalMatrix A).a13 = 0 := by
-    simp only [normalMatrix, sumMap_eq_sum]
-    exact sum_map_eq_zero _ _ (fun a ha => by rw [hp a ha]; ring)
-  have h23 : (normalMatrix A).a23 = 0 := by
-    simp only [normalMatrix, sumMap_eq_sum]
-    exact sum_map_eq_zero _ _ (fun a ha => by rw [hp a ha]; ring)
-  have hsym : (normalMatrix A).a21 = (normalMatrix A).a12 := by
-    simp only [normalMatrix, sumMap_eq_sum]
-    exact sum_map_congr _ _ _ (fun a => mul_comm _ _)
-  generalize normalMatrix A = M at *
-  simp only [det2] at hdet
-  apply V3.eq_of <;> simp only [M3.mulVec, h13, h23, det2, lit_zero]
-  · rw [hsym] at hdet ⊢; rw [div_eq_iff hdet]; ring
-  · rw [hsym] at hdet ⊢; rw [div_eq_iff hdet]; ring
+/-! ### the whole `gradient_3D` pipeline -/
 
-example : lstsq3 ([⟨1, 0, 0⟩, ⟨0, 1, 0⟩, ⟨0, 0, 1⟩, ⟨1, 1, 1⟩].map fun a => (a, a.dot (⟨2, 3, -1⟩ : V3 ℝ))) = ⟨2, 3, -1⟩ := by
-  apply lstsq_exact
-  · intro h; have := h ⟨0, 0, 1⟩ (by simp); simp at this
-  · simp [normalMatrix, sumMap, det3]; norm_num
+/-- PARTIAL (first-order elements).  Full statement of clause (a): on every non-degenerate hexahedral / tetrahedral
+mesh the result of `Gradient3D.gradient_of` for `f = g·x + c` is `g` at every node.  Proved here for meshes whose
+elements have 8 or 4 rows, for every node / element numbering and row order (that keeps each element's local node
+order): every row of the result carries `g`.  On 16/20-node hexahedra and 10-node tetrahedra the full statement is
+FALSE for the unchanged code (`gradient3D_midside_zero_witness`; `gradient3D_exact_quadratic` says what holds
+instead) - open finding `g3d-midside-zero`. -/
+theorem gradient3D_exact_partial (rows : List (MRow ℝ)) (g : V3 ℝ) (c : ℝ)
+    (hlin : ∀ r ∈ rows, r.v = g.dot r.p + c)
+    (hshape : ∀ grp ∈ elemGroups rows, grp.length = 8 ∨ grp.length = 4)
+    (hhex : ∀ grp ∈ elemGroups rows, grp.length = 8 → ∀ xi ∈ (hexXi : List (V3 ℝ)), det3 (hexJ (hexOfGroup grp) xi) ≠ 0)
+    (htet : ∀ grp ∈ elemGroups rows, grp.length = 4 → det3 (tetJ (tetOfGroup grp)) ≠ 0) :
+    ∀ e ∈ gradient3D rows, e.2 = some g :=
+  Mesh.gradient3D_exact rows g c hlin hshape hhex htet
 
-example : lstsq3 ([⟨1, 0, 0⟩, ⟨0, 1, 0⟩, ⟨1, 1, 0⟩].map fun a => (a, a.dot (⟨2, 3, 7⟩ : V3 ℝ))) = ⟨2, 3, 0⟩ := by
-  apply lstsq_exact_planar
-  · intro a ha; simp at ha; rcases ha with rfl | rfl | rfl <;> rfl
-  · simp [normalMatrix, sumMap, det2]; norm_num
+/-- Non-vacuity on a mesh: two distorted hexahedra (element ids 40 and 5) sharing a face, twelve nodes with
+non-contiguous unordered ids, rows interleaved; every hypothesis is discharged from the geometry. -/
+example : ∀ e ∈ gradient3D mesh2, e.2 = some (⟨2, 3, -1⟩ : V3 ℝ) := mesh2_exact
 
-/-- Full column rank (only the zero vector is orthogonal to every row) makes `AᵀA` invertible. -/
+/-- The result has exactly one row per node id of the mesh (so `gradient3D_exact_partial` is not a statement about
+an empty list). -/
+theorem gradient3D_nodes (rows : List (MRow ℝ)) :
+    ((gradient3D rows).map (·.1)).Nodup ∧
+      ∀ id : Int, id ∈ (gradient3D rows).map (·.1) ↔ id ∈ rows.map (·.node) :=
+  Mesh.gradient3D_nodes rows
+
+example : ((gradient3D mesh2).map (·.1)).Perm [7, 20, 3, 11, 15, 2, 31, 9, 44, 6, 17, 28] ∧
+    (gradient3D mesh2).length = 12 := mesh2_nodes
+
+/-- First- and second-order elements (8/16/20 rows: hexahedra, 4/10 rows: tetrahedra): every result row carries `g`
+when the node is a corner in the element that reports it, and exactly `0` when it is a mid-side node there - the
+documented behaviour ("the result contains zeros for all following nodes"). -/
+theorem gradient3D_exact_quadratic (rows : List (MRow ℝ)) (g : V3 ℝ) (c : ℝ)
+    (hlin : ∀ r ∈ rows, r.v = g.dot r.p + c)
+    (hshape : ∀ grp ∈ elemGroups rows,
+      grp.length = 8 ∨ grp.length = 16 ∨ grp.length = 20 ∨ grp.length = 4 ∨ grp.length = 10)
+    (hhex : ∀ grp ∈ elemGroups rows, ncorner grp.length = 8 →
+      ∀ xi ∈ (hexXi : List (V3 ℝ)), det3 (hexJ (hexOfGroup grp) xi) ≠ 0)
+    (htet : ∀ grp ∈ elemGroups rows, ncorner grp.length = 4 → det3 (tetJ (tetOfGroup grp)) ≠ 0) :
+    ∀ e ∈ gradient3D rows, ∃ grp ∈ elemGroups rows, ∃ i, i < grp.length ∧
+      (grp.getD i ⟨0, 0, default, 0.0⟩).node = e.1 ∧
+      e.2 = some (if i < ncorner grp.length then g else V3.zero) :=
+  Mesh.gradient3D_exact_quadratic rows g c hlin hshape hhex htet
+
+/-- Kernel-checked refutation of the full clause (a) on second-order elements: on the 20-node unit cube with
+`f = 2x + 3y − z + 1` the mid-side node 9 gets the gradient `0` while corner node 1 gets `(2, 3, −1)`. -/
+theorem gradient3D_midside_zero_witness :
+    (9, some V3.zero) ∈ gradient3D q20 ∧ (1, some (⟨2, 3, -1⟩ : V3 ℝ)) ∈ gradient3D q20 ∧
+      ¬ ∀ e ∈ gradient3D q20, e.2 = some (⟨2, 3, -1⟩ : V3 ℝ) :=
+  Mesh.gradient3D_midside_zero_witness
+
+/-! ## (a) `gradient`: least squares -/
+
+/-- Rank 3 above the cut-off: if the right-hand side is `A g` (differences of a linear field), the normal equations
+return `g`: `(AᵀA)⁻¹ Aᵀ (A g) = g`.  `h2`, `h3` say that `lstsq3` takes the rank-3 branch. -/
+theorem lstsq_exact (rtol : ℝ) (hr : 0 ≤ rtol) (A : List (V3 ℝ)) (g : V3 ℝ)
+    (h2 : rtol * ((normalMatrix A).trace * (normalMatrix A).trace) < adjTrace (normalMatrix A))
+    (h3 : rtol * (adjTrace (normalMatrix A) * (normalMatrix A).trace) < det3 (normalMatrix A)) :
+    lstsq3 rtol (A.map fun a => (a, a.dot g)) = g :=
+  lstsq3_rank3 rtol hr A g h2 h3
+
+/-- Full column rank (only the zero vector is orthogonal to every row) makes `AᵀA` invertible … -/
 theorem lstsq_full_rank (A : List (V3 ℝ))
     (hrank : ∀ v : V3 ℝ, (∀ a ∈ A, a.dot v = 0) → v = ⟨0, 0, 0⟩) :
     det3 (normalMatrix A) ≠ 0 :=
   det3_normalMatrix_ne_zero A hrank
 
+/-- … and with the cut-off 0 (exact arithmetic) full column rank alone gives exactness. -/
+theorem lstsq_exact_full_rank (A : List (V3 ℝ)) (g : V3 ℝ)
+    (hrank : ∀ v : V3 ℝ, (∀ a ∈ A, a.dot v = 0) → v = ⟨0, 0, 0⟩) :
+    lstsq3 0 (A.map fun a => (a, a.dot g)) = g :=
+  lstsq3_full_rank A g hrank
 
-/-! ## the whole `gradient_3D` pipeline -/
+/-- Rows in ONE PLANE of any orientation (all rows orthogonal to `n ≠ 0`; planar / shell meshes): the derivative
+normal to the plane is not determined by the data; the minimum-norm solution `np.linalg.lstsq` returns is `g` minus
+its normal component. -/
+theorem lstsq_min_norm_planar (rtol : ℝ) (hr : 0 ≤ rtol) (A : List (V3 ℝ)) (g n : V3 ℝ)
+    (hn : n.dot n ≠ 0) (hplane : ∀ a ∈ A, a.dot n = 0)
+    (h2 : rtol * ((normalMatrix A).trace * (normalMatrix A).trace) < adjTrace (normalMatrix A)) :
+    lstsq3 rtol (A.map fun a => (a, a.dot g)) =
+      ⟨g.x - g.dot n / n.dot n * n.x, g.y - g.dot n / n.dot n * n.y, g.z - g.dot n / n.dot n * n.z⟩ :=
+  lstsq3_planar rtol hr A g n hn hplane h2
 
-/-- One element group (8 rows: hexahedron, 4 rows: tetrahedron) of a linear field: every row gets `g`. -/
-theorem elemGrad_exact (grp : List (MRow ℝ)) (g : V3 ℝ) (c : ℝ)
-    (hlin : ∀ r ∈ grp, r.v = g.dot r.p + c)
-    (hshape : grp.length = 8 ∨ grp.length = 4)
-    (hhex : grp.length = 8 → ∀ xi ∈ (hexXi : List (V3 ℝ)), det3 (hexJ (hexOfGroup grp) xi) ≠ 0)
-    (htet : grp.length = 4 → det3 (tetJ (tetOfGroup grp)) ≠ 0) :
-    ∀ e ∈ elemGrad grp, e.2 = some g := by
-  have hcorner : ∀ i, i < grp.length → (grp.getD i ⟨0, 0, default, 0.0⟩).corner.f
-      = g.dot (grp.getD i ⟨0, 0, default, 0.0⟩).corner.p + c := by
-    intro i hi
-    exact hlin _ (getD_mem grp _ i hi)
-  intro e he
-  rcases hshape with h8 | h4
-  · have hall := hex_gradient_exact_all (hexOfGroup grp) g c (by
-      intro q hq
-      simp only [hexOfGroup, Hex.corners, List.mem_cons, List.not_mem_nil, or_false] at hq
-      rcases hq with rfl | rfl | rfl | rfl | rfl | rfl | rfl | rfl <;> exact hcorner _ (by omega)) (hhex h8)
-    simp only [elemGrad, h8] at he
-    simp only [BEq.rfl, Bool.true_or, if_true, List.mem_map, List.mem_range] at he
-    obtain ⟨i, hi, rfl⟩ := he
-    simp only [Option.some.injEq]
-    apply hall
-    exact getD_mem _ _ i (by simpa [hexGrad, hexXi] using hi)
-  · have ht := simplex_gradient_exact (tetOfGroup grp) g c (by
-      intro q hq
-      simp only [tetOfGroup, Tet.corners, List.mem_cons, List.not_mem_nil, or_false] at hq
-      rcases hq with rfl | rfl | rfl | rfl <;> exact hcorner _ (by omega)) (htet h4)
-    simp only [elemGrad, h4] at he
-    simp only [show ((4 : Nat) == 8) = false from rfl, show ((4 : Nat) == 16) = false from rfl,
-      show ((4 : Nat) == 20) = false from rfl, Bool.or_self, Bool.false_eq_true, if_false, BEq.rfl, Bool.true_or,
-      if_true, List.mem_map, List.mem_range] at he
-    obtain ⟨i, hi, rfl⟩ := he
-    simp only [Option.some.injEq]
-    have hx : ∀ v ∈ tetGrad (tetOfGroup grp), v = g := by
-      intro v hv
-      simp only [tetGrad, List.mem_cons, List.not_mem_nil, or_false, or_self] at hv
-      rw [hv]; exact ht
-    exact hx _ (getD_mem (tetGrad (tetOfGroup grp)) V3.zero i (by simpa [tetGrad] using hi))
+/-- The mesh in a plane `z = const`: `(g_x, g_y, 0)`. -/
+theorem lstsq_exact_planar (rtol : ℝ) (hr : 0 ≤ rtol) (A : List (V3 ℝ)) (g : V3 ℝ)
+    (hp : ∀ a ∈ A, a.z = 0)
+    (h2 : rtol * ((normalMatrix A).trace * (normalMatrix A).trace) < adjTrace (normalMatrix A)) :
+    lstsq3 rtol (A.map fun a => (a, a.dot g)) = ⟨g.x, g.y, 0⟩ := by
+  rw [lstsq3_planar rtol hr A g ⟨0, 0, 1⟩ (by simp [V3.dot]) (fun a ha => by simp [V3.dot, hp a ha]) h2]
+  apply V3.eq_of <;> simp [V3.dot]
 
+/-- Rows on ONE LINE (direction `d ≠ 0`, not all zero): the component of `g` along the line. -/
+theorem lstsq_min_norm_line (rtol : ℝ) (hr : 0 ≤ rtol) (A : List (V3 ℝ)) (g d : V3 ℝ) (hd : d.dot d ≠ 0)
+    (hline : ∀ a ∈ A, ∃ s : ℝ, a = ⟨s * d.x, s * d.y, s * d.z⟩) (hne : ∃ a ∈ A, a.dot a ≠ 0) :
+    lstsq3 rtol (A.map fun a => (a, a.dot g)) =
+      ⟨g.dot d / d.dot d * d.x, g.dot d / d.dot d * d.y, g.dot d / d.dot d * d.z⟩ :=
+  lstsq3_line rtol hr A g d hd hline hne
 
-/-- **`Gradient3D.gradient_of` is exact on linear fields for every node / element numbering and row order**
-(that keeps each element's local node order): if every element has 8 or 4 rows, the field is `g·x + c` on
-every row and the Jacobians the code inverts are invertible, every row of the result carries `g`. -/
-theorem gradient3D_exact (rows : List (MRow ℝ)) (g : V3 ℝ) (c : ℝ)
-    (hlin : ∀ r ∈ rows, r.v = g.dot r.p + c)
-    (hshape : ∀ grp ∈ elemGroups rows, grp.length = 8 ∨ grp.length = 4)
-    (hhex : ∀ grp ∈ elemGroups rows, grp.length = 8 → ∀ xi ∈ (hexXi : List (V3 ℝ)), det3 (hexJ (hexOfGroup grp) xi) ≠ 0)
-    (htet : ∀ grp ∈ elemGroups rows, grp.length = 4 → det3 (tetJ (tetOfGroup grp)) ≠ 0) :
-    ∀ e ∈ gradient3D rows, e.2 = some g := by
-  intro e he
-  have he' := mem_dedupFirst _ _ _ he
-  rw [List.mem_flatMap] at he'
-  obtain ⟨grp, hgrp, hmem⟩ := he'
-  exact elemGrad_exact grp g c (fun r hr => hlin r (mem_elemGroups_sub rows grp hgrp r hr))
-    (hshape grp hgrp) (hhex grp hgrp) (htet grp hgrp) e hmem
+example : lstsq3 (1 / 10 ^ 12) ([⟨1, 0, 0⟩, ⟨0, 1, 0⟩, ⟨0, 0, 1⟩, ⟨1, 1, 1⟩].map fun a => (a, a.dot (⟨2, 3, -1⟩ : V3 ℝ)))
+    = ⟨2, 3, -1⟩ := by
+  apply lstsq_exact _ (by positivity) <;> simp [normalMatrix, sumMap, det3, adjTrace, M3.trace] <;> norm_num
 
-/-! ## the whole `gradient` (least squares) pipeline -/
+/-- A TILTED plane (normal `(1, 1, −1)`): the result `(0, 1, 1)` is `g = (2, 3, −1)` minus its normal component `(2, 2, −2)`. -/
+example : lstsq3 (1 / 10 ^ 12) ([⟨1, 0, 1⟩, ⟨0, 1, 1⟩, ⟨1, 1, 2⟩].map fun a => (a, a.dot (⟨2, 3, -1⟩ : V3 ℝ))) = ⟨0, 1, 1⟩ := by
+  rw [lstsq_min_norm_planar (1 / 10 ^ 12) (by positivity) _ ⟨2, 3, -1⟩ ⟨1, 1, -1⟩ (by norm_num [V3.dot])]
+  · apply V3.eq_of <;> norm_num [V3.dot]
+  · intro a ha; simp at ha; rcases ha with rfl | rfl | rfl <;> norm_num [V3.dot]
+  · simp [normalMatrix, sumMap, adjTrace, M3.trace]; norm_num
+
+example : lstsq3 0 ([⟨1, 0, 0⟩, ⟨0, 1, 0⟩, ⟨1, 1, 0⟩].map fun a => (a, a.dot (⟨2, 3, 7⟩ : V3 ℝ))) = ⟨2, 3, 0⟩ := by
+  apply lstsq_exact_planar 0 le_rfl
+  · intro a ha; simp at ha; rcases ha with rfl | rfl | rfl <;> rfl
+  · simp [normalMatrix, sumMap, adjTrace, M3.trace]; norm_num
+
+example : lstsq3 0 ([⟨1, 2, -1⟩, ⟨-2, -4, 2⟩].map fun a => (a, a.dot (⟨6, 0, 0⟩ : V3 ℝ))) = ⟨1, 2, -1⟩ := by
+  rw [lstsq_min_norm_line 0 le_rfl _ ⟨6, 0, 0⟩ ⟨1, 2, -1⟩ (by norm_num [V3.dot])]
+  · apply V3.eq_of <;> norm_num [V3.dot]
+  · intro a ha; simp at ha; rcases ha with rfl | rfl
+    · exact ⟨1, by simp⟩
+    · exact ⟨-2, by norm_num⟩
+  · exact ⟨⟨1, 2, -1⟩, by simp, by norm_num [V3.dot]⟩
+
+/-! ### the whole `gradient` (least squares) pipeline -/
 
 /-- **`Gradient.gradient_of` is exact on linear fields for every node numbering** (the model addresses node
-rows through the id → position map, the repaired behaviour): if a node has one position in all its rows and
-the field is `g·x + c`, the output row of node `id` is `g` whenever that node's least-squares system
-`nbrDiffs rows id` (rows `x_j − x_i` over the neighbours) is non-planar with invertible normal matrix. -/
-theorem gradientLsq_exact (rows : List (MRow ℝ)) (g : V3 ℝ) (c : ℝ)
+rows through the id → position map): if a node has one position in all its rows and the field is `g·x + c`, the
+output row of node `id` is `g` whenever that node's least-squares system `nbrDiffs rows id` (rows `x_j − x_i` over
+the neighbours) has rank 3 above the cut-off. -/
+theorem gradientLsq_exact (rtol : ℝ) (hr : 0 ≤ rtol) (rows : List (MRow ℝ)) (g : V3 ℝ) (c : ℝ)
     (hcoord : ∀ r ∈ rows, ∀ r' ∈ rows, r.node = r'.node → r.p = r'.p)
     (hlin : ∀ r ∈ rows, r.v = g.dot r.p + c)
-    (id : Int) (gr : V3 ℝ) (hmem : (id, gr) ∈ gradientLsq (fun n => (n : ℝ)) rows)
-    (hnp : ¬ ∀ a ∈ nbrDiffs rows id, a.z = 0)
-    (hdet : det3 (normalMatrix (nbrDiffs rows id)) ≠ 0) :
+    (id : Int) (gr : V3 ℝ) (hmem : (id, gr) ∈ gradientLsq rtol (fun n => (n : ℝ)) rows)
+    (h2 : rtol * ((normalMatrix (nbrDiffs rows id)).trace * (normalMatrix (nbrDiffs rows id)).trace)
+      < adjTrace (normalMatrix (nbrDiffs rows id)))
+    (h3 : rtol * (adjTrace (normalMatrix (nbrDiffs rows id)) * (normalMatrix (nbrDiffs rows id)).trace)
+      < det3 (normalMatrix (nbrDiffs rows id))) :
     gr = g := by
-  rw [(gradientLsq_exact_aux rows g c hcoord hlin id gr hmem).2]
-  exact lstsq_exact _ g hnp hdet
+  rw [(gradientLsq_exact_aux rtol rows g c hcoord hlin id gr hmem).2]
+  exact lstsq3_rank3 rtol hr _ g h2 h3
 
-/-- Planar meshes: `(g_x, g_y, 0)`. -/
-theorem gradientLsq_exact_planar (rows : List (MRow ℝ)) (g : V3 ℝ) (c : ℝ)
+/-- Exact arithmetic (cut-off 0): the node's system having full column rank is enough - e.g. because the node is a
+corner of a non-degenerate tetrahedron (`Mesh.nbrDiffs_full_rank_of_tet`). -/
+theorem gradientLsq_exact_full_rank (rows : List (MRow ℝ)) (g : V3 ℝ) (c : ℝ)
     (hcoord : ∀ r ∈ rows, ∀ r' ∈ rows, r.node = r'.node → r.p = r'.p)
     (hlin : ∀ r ∈ rows, r.v = g.dot r.p + c)
-    (id : Int) (gr : V3 ℝ) (hmem : (id, gr) ∈ gradientLsq (fun n => (n : ℝ)) rows)
-    (hp : ∀ a ∈ nbrDiffs rows id, a.z = 0)
-    (hdet : det2 (normalMatrix (nbrDiffs rows id)).a11 (normalMatrix (nbrDiffs rows id)).a12
-      (normalMatrix (nbrDiffs rows id)).a21 (normalMatrix (nbrDiffs rows id)).a22 ≠ 0) :
-    gr = ⟨g.x, g.y, 0⟩ := by
-  rw [(gradientLsq_exact_aux rows g c hcoord hlin id gr hmem).2]
-  exact lstsq_exact_planar _ g hp hdet
+    (id : Int) (gr : V3 ℝ) (hmem : (id, gr) ∈ gradientLsq 0 (fun n => (n : ℝ)) rows)
+    (hrank : ∀ v : V3 ℝ, (∀ a ∈ nbrDiffs rows id, a.dot v = 0) → v = ⟨0, 0, 0⟩) :
+    gr = g := by
+  rw [(gradientLsq_exact_aux 0 rows g c hcoord hlin id gr hmem).2]
+  exact lstsq3_full_rank _ g hrank
+
+/-- Planar meshes in ANY plane (every neighbour difference orthogonal to `n ≠ 0`): `g` minus its normal component. -/
+theorem gradientLsq_exact_planar (rtol : ℝ) (hr : 0 ≤ rtol) (rows : List (MRow ℝ)) (g n : V3 ℝ) (c : ℝ)
+    (hcoord : ∀ r ∈ rows, ∀ r' ∈ rows, r.node = r'.node → r.p = r'.p)
+    (hlin : ∀ r ∈ rows, r.v = g.dot r.p + c)
+    (id : Int) (gr : V3 ℝ) (hmem : (id, gr) ∈ gradientLsq rtol (fun n => (n : ℝ)) rows)
+    (hn : n.dot n ≠ 0) (hp : ∀ a ∈ nbrDiffs rows id, a.dot n = 0)
+    (h2 : rtol * ((normalMatrix (nbrDiffs rows id)).trace * (normalMatrix (nbrDiffs rows id)).trace)
+      < adjTrace (normalMatrix (nbrDiffs rows id))) :
+    gr = ⟨g.x - g.dot n / n.dot n * n.x, g.y - g.dot n / n.dot n * n.y, g.z - g.dot n / n.dot n * n.z⟩ := by
+  rw [(gradientLsq_exact_aux rtol rows g c hcoord hlin id gr hmem).2]
+  exact lstsq3_planar rtol hr _ g n hn hp h2
 
 /-- One output row per node id, ascending. -/
-theorem gradientLsq_nodes (rows : List (MRow ℝ)) :
-    (gradientLsq (fun n => (n : ℝ)) rows).map (·.1) = sortedUnique (rows.map (·.node)) :=
-  gradientLsq_ids _ rows
+theorem gradientLsq_nodes (rtol : ℝ) (rows : List (MRow ℝ)) :
+    (gradientLsq rtol (fun n => (n : ℝ)) rows).map (·.1) = sortedUnique (rows.map (·.node)) :=
+  gradientLsq_ids rtol _ rows
 
-/-- Non-vacuity: one tetrahedron with node ids 7, 20, 3, 11 (not 1..N, not ordered). -/
-example : (gradientLsq (fun n => (n : ℝ))
-    ([⟨7, 1, ⟨0, 0, 0⟩, 1⟩, ⟨20, 1, ⟨1, 0, 0⟩, 3⟩, ⟨3, 1, ⟨0, 1, 0⟩, 4⟩, ⟨11, 1, ⟨0, 0, 1⟩, 0⟩] : List (MRow ℝ))).map (·.1)
-    = [3, 7, 11, 20] := by
-  rw [gradientLsq_nodes]; decide
+/-- Non-vacuity of the pipeline theorems: one tetrahedron with node ids 7, 20, 3, 11 (not 1..N, not ordered), linear
+field `2x + 3y − z + 1`: the result has the four ids in ascending order and every row carries `g`. -/
+example : ∀ e ∈ gradientLsq 0 (fun n => (n : ℝ))
+    ([⟨7, 1, ⟨0, 0, 0⟩, 1⟩, ⟨20, 1, ⟨1, 0, 0⟩, 3⟩, ⟨3, 1, ⟨0, 1, 0⟩, 4⟩, ⟨11, 1, ⟨0, 0, 1⟩, 0⟩] : List (MRow ℝ)),
+    e.1 ∈ [3, 7, 11, 20] ∧ (e.1 = 7 → e.2 = ⟨2, 3, -1⟩) := by
+  intro e he
+  have hids := gradientLsq_nodes 0 ([⟨7, 1, ⟨0, 0, 0⟩, 1⟩, ⟨20, 1, ⟨1, 0, 0⟩, 3⟩, ⟨3, 1, ⟨0, 1, 0⟩, 4⟩,
+    ⟨11, 1, ⟨0, 0, 1⟩, 0⟩] : List (MRow ℝ))
+  have hs : sortedUnique (([⟨7, 1, ⟨0, 0, 0⟩, 1⟩, ⟨20, 1, ⟨1, 0, 0⟩, 3⟩, ⟨3, 1, ⟨0, 1, 0⟩, 4⟩,
+    ⟨11, 1, ⟨0, 0, 1⟩, 0⟩] : List (MRow ℝ)).map (·.node)) = [3, 7, 11, 20] := by decide
+  rw [hs] at hids
+  refine ⟨by rw [← hids]; exact List.mem_map_of_mem he, ?_⟩
+  intro h7
+  obtain ⟨i, gr⟩ := e
+  simp only at h7; subst h7
+  have hcoord : ∀ r ∈ ([⟨7, 1, ⟨0, 0, 0⟩, 1⟩, ⟨20, 1, ⟨1, 0, 0⟩, 3⟩, ⟨3, 1, ⟨0, 1, 0⟩, 4⟩,
+      ⟨11, 1, ⟨0, 0, 1⟩, 0⟩] : List (MRow ℝ)), ∀ r' ∈ ([⟨7, 1, ⟨0, 0, 0⟩, 1⟩, ⟨20, 1, ⟨1, 0, 0⟩, 3⟩, ⟨3, 1, ⟨0, 1, 0⟩, 4⟩,
+      ⟨11, 1, ⟨0, 0, 1⟩, 0⟩] : List (MRow ℝ)), r.node = r'.node → r.p = r'.p := by
+    intro r hr r' hr' hn
+    simp only [List.mem_cons, List.not_mem_nil, or_false] at hr hr'
+    rcases hr with rfl | rfl | rfl | rfl <;> rcases hr' with rfl | rfl | rfl | rfl <;>
+      first | rfl | exact absurd hn (by decide)
+  refine gradientLsq_exact_full_rank _ ⟨2, 3, -1⟩ 1 hcoord ?_ 7 gr he ?_
+  · intro r hr
+    simp only [List.mem_cons, List.not_mem_nil, or_false] at hr
+    rcases hr with rfl | rfl | rfl | rfl <;> norm_num [V3.dot]
+  · exact nbrDiffs_full_rank_of_tet _ hcoord ⟨7, 1, ⟨0, 0, 0⟩, 1⟩ ⟨20, 1, ⟨1, 0, 0⟩, 3⟩ ⟨3, 1, ⟨0, 1, 0⟩, 4⟩
+      ⟨11, 1, ⟨0, 0, 1⟩, 0⟩ (by simp) (by simp) (by simp) (by simp) rfl rfl rfl (by decide) (by decide) (by decide)
+      (by norm_num [triple, V3.dot, V3.cross, V3.sub])
 
-/-! ## mesh mapping: barycentric interpolation inside one simplex -/
+/-! ## (b), (c) mesh mapping: `griddata(method='linear')` -/
 
-/-- `griddata(method='linear')` inside a non-degenerate tetrahedron reproduces `f = g·x + c`. -/
+/-- Interpolation inside a non-degenerate tetrahedron reproduces `f = g·x + c`. -/
 theorem barycentric_reproduces_linear (p0 p1 p2 p3 p g : V3 ℝ) (c : ℝ)
-    (hdet : det3 ⟨(p1.sub p0).x, (p2.sub p0).x, (p3.sub p0).x, (p1.sub p0).y, (p2.sub p0).y, (p3.sub p0).y,
-      (p1.sub p0).z, (p2.sub p0).z, (p3.sub p0).z⟩ ≠ 0) :
-    baryInterp3 p0 p1 p2 p3 (g.dot p0 + c) (g.dot p1 + c) (g.dot p2 + c) (g.dot p3 + c) p = g.dot p + c := by
-  set T : M3 ℝ := ⟨(p1.sub p0).x, (p2.sub p0).x, (p3.sub p0).x, (p1.sub p0).y, (p2.sub p0).y, (p3.sub p0).y,
-      (p1.sub p0).z, (p2.sub p0).z, (p3.sub p0).z⟩ with hT
-  have key := mulVec_inv3_mulVec T hdet (p.sub p0)
-  simp only [baryInterp3, baryWeights3, ← hT]
-  generalize (inv3 T).mulVec (p.sub p0) = l at key ⊢
-  have kx := congrArg V3.x key
-  have ky := congrArg V3.y key
-  have kz := congrArg V3.z key
-  simp only [hT, M3.mulVec, V3.sub] at kx ky kz
-  simp only [V3.dot, lit_one]
-  linear_combination g.x * kx + g.y * ky + g.z * kz
+    (hdet : det3 (edgeMatrix p0 p1 p2 p3) ≠ 0) :
+    baryInterp3 p0 p1 p2 p3 (g.dot p0 + c) (g.dot p1 + c) (g.dot p2 + c) (g.dot p3 + c) p = g.dot p + c :=
+  baryInterp3_linear p0 p1 p2 p3 p g c hdet
 
 /-- Triangle (2-D meshes). -/
 theorem barycentric_reproduces_linear_2d (x0 y0 x1 y1 x2 y2 px py gx gy c : ℝ)
     (hdet : det2 (x1 - x0) (x2 - x0) (y1 - y0) (y2 - y0) ≠ 0) :
     baryInterp2 x0 y0 x1 y1 x2 y2 (gx * x0 + gy * y0 + c) (gx * x1 + gy * y1 + c) (gx * x2 + gy * y2 + c) px py
-      = gx * px + gy * py + c := by
-  simp only [baryInterp2, baryWeights2, lit_one]
-  generalize hd : det2 (x1 - x0) (x2 - x0) (y1 - y0) (y2 - y0) = d at hdet ⊢
-  field_simp
-  rw [← hd]; simp only [det2]; ring
+      = gx * px + gy * py + c :=
+  baryInterp2_linear x0 y0 x1 y1 x2 y2 px py gx gy c hdet
 
-/-- Mapping onto the source points returns the source values (any field): at a vertex of a non-degenerate
-tetrahedron the interpolated value is that vertex' value. -/
+/-- At a vertex of a non-degenerate tetrahedron the interpolated value is that vertex' value (any nodal values). -/
 theorem barycentric_at_vertex (p0 p1 p2 p3 : V3 ℝ) (f0 f1 f2 f3 : ℝ)
-    (hdet : det3 ⟨(p1.sub p0).x, (p2.sub p0).x, (p3.sub p0).x, (p1.sub p0).y, (p2.sub p0).y, (p3.sub p0).y,
-      (p1.sub p0).z, (p2.sub p0).z, (p3.sub p0).z⟩ ≠ 0) :
+    (hdet : det3 (edgeMatrix p0 p1 p2 p3) ≠ 0) :
     baryInterp3 p0 p1 p2 p3 f0 f1 f2 f3 p0 = f0 ∧ baryInterp3 p0 p1 p2 p3 f0 f1 f2 f3 p1 = f1 ∧
-    baryInterp3 p0 p1 p2 p3 f0 f1 f2 f3 p2 = f2 ∧ baryInterp3 p0 p1 p2 p3 f0 f1 f2 f3 p3 = f3 := by
-  set T : M3 ℝ := ⟨(p1.sub p0).x, (p2.sub p0).x, (p3.sub p0).x, (p1.sub p0).y, (p2.sub p0).y, (p3.sub p0).y,
-      (p1.sub p0).z, (p2.sub p0).z, (p3.sub p0).z⟩ with hT
-  have e0 : p0.sub p0 = T.mulVec ⟨0, 0, 0⟩ := by apply V3.eq_of <;> simp [hT, M3.mulVec, V3.sub]
-  have e1 : p1.sub p0 = T.mulVec ⟨1, 0, 0⟩ := by apply V3.eq_of <;> simp [hT, M3.mulVec, V3.sub]
-  have e2 : p2.sub p0 = T.mulVec ⟨0, 1, 0⟩ := by apply V3.eq_of <;> simp [hT, M3.mulVec, V3.sub]
-  have e3 : p3.sub p0 = T.mulVec ⟨0, 0, 1⟩ := by apply V3.eq_of <;> simp [hT, M3.mulVec, V3.sub]
-  refine ⟨?_, ?_, ?_, ?_⟩ <;> simp only [baryInterp3, baryWeights3, ← hT]
-  · rw [e0, inv3_mulVec_mulVec T hdet]; simp
-  · rw [e1, inv3_mulVec_mulVec T hdet]; simp
-  · rw [e2, inv3_mulVec_mulVec T hdet]; simp
-  · rw [e3, inv3_mulVec_mulVec T hdet]; simp
+    baryInterp3 p0 p1 p2 p3 f0 f1 f2 f3 p2 = f2 ∧ baryInterp3 p0 p1 p2 p3 f0 f1 f2 f3 p3 = f3 :=
+  baryInterp3_vertices p0 p1 p2 p3 f0 f1 f2 f3 hdet
+
+/-- … and of a non-degenerate triangle. -/
+theorem barycentric_at_vertex_2d (t : Tri ℝ) (hdet : t.det ≠ 0) (q : ℝ × ℝ × ℝ) (hq : q ∈ t.corners) :
+    inTri 0 t q.1 q.2.1 = true ∧ triInterp t q.1 q.2.1 = q.2.2 :=
+  inTri_vertex 0 le_rfl t hdet q hq
 
 example : baryInterp3 (⟨0, 0, 0⟩ : V3 ℝ) ⟨1, 0, 0⟩ ⟨0, 1, 0⟩ ⟨0, 0, 1⟩ 1 3 4 0 ⟨0.25, 0.25, 0.25⟩ = 2 := by
   have h := barycentric_reproduces_linear (⟨0, 0, 0⟩ : V3 ℝ) ⟨1, 0, 0⟩ ⟨0, 1, 0⟩ ⟨0, 0, 1⟩ ⟨0.25, 0.25, 0.25⟩ ⟨2, 3, -1⟩ 1
-    (by simp [V3.sub, det3])
+    (by simp [edgeMatrix, V3.sub, det3])
   simp only [V3.dot] at h
   norm_num at h ⊢
   exact h
+
+/-! ### the whole mapping on a triangulation (`mapMesh3` / `mapMesh2`: what `Meshmapper.process` computes once Qhull
+has delivered the simplices) -/
+
+/-- Clause (c): a point inside some simplex of a triangulation of non-degenerate simplices that carries a linear
+field gets the linear value (whichever simplex the point location picks). -/
+theorem mapMesh_linear_interior (tol : ℝ) (htol : 0 ≤ tol) (tets : List (Tet ℝ)) (g p : V3 ℝ) (c : ℝ)
+    (hnd : ∀ t ∈ tets, t.det ≠ 0) (hlin : ∀ t ∈ tets, ∀ q ∈ t.corners, q.f = g.dot q.p + c)
+    (hin : ∃ t ∈ tets, inTet 0 t p = true) :
+    mapMesh3 tol tets p = some (g.dot p + c) :=
+  mapMesh3_linear_interior tol htol tets g p c hnd hlin hin
+
+/-- Clause (b): mapping onto a source point returns the source value, for ANY nodal field `f`, when the
+triangulation is conforming at that point (every simplex that contains it has it as a vertex). -/
+theorem mapMesh_same_point (tol : ℝ) (htol : 0 ≤ tol) (tets : List (Tet ℝ)) (f : V3 ℝ → ℝ) (p : V3 ℝ)
+    (hnd : ∀ t ∈ tets, t.det ≠ 0) (hval : ∀ t ∈ tets, ∀ q ∈ t.corners, q.f = f q.p)
+    (hvert : ∃ t ∈ tets, ∃ q ∈ t.corners, q.p = p)
+    (hconf : ∀ t ∈ tets, inTet tol t p = true → ∃ q ∈ t.corners, q.p = p) :
+    mapMesh3 tol tets p = some (f p) :=
+  mapMesh3_same_point tol htol tets f p hnd hval hvert hconf
+
+/-- NaN exactly for points outside every simplex. -/
+theorem mapMesh_outside_iff (tol : ℝ) (tets : List (Tet ℝ)) (p : V3 ℝ) :
+    mapMesh3 tol tets p = none ↔ ∀ t ∈ tets, inTet tol t p = false :=
+  mapMesh3_eq_none_iff tol tets p
+
+/-- 2-D meshes. -/
+theorem mapMesh_linear_interior_2d (tol : ℝ) (htol : 0 ≤ tol) (tris : List (Tri ℝ)) (gx gy c px py : ℝ)
+    (hnd : ∀ t ∈ tris, t.det ≠ 0) (hlin : ∀ t ∈ tris, ∀ q ∈ t.corners, q.2.2 = gx * q.1 + gy * q.2.1 + c)
+    (hin : ∃ t ∈ tris, inTri 0 t px py = true) :
+    mapMesh2 tol tris px py = some (gx * px + gy * py + c) :=
+  mapMesh2_linear_interior tol htol tris gx gy c px py hnd hlin hin
+
+theorem mapMesh_same_point_2d (tol : ℝ) (htol : 0 ≤ tol) (tris : List (Tri ℝ)) (f : ℝ → ℝ → ℝ) (px py : ℝ)
+    (hnd : ∀ t ∈ tris, t.det ≠ 0) (hval : ∀ t ∈ tris, ∀ q ∈ t.corners, q.2.2 = f q.1 q.2.1)
+    (hvert : ∃ t ∈ tris, ∃ q ∈ t.corners, q.1 = px ∧ q.2.1 = py)
+    (hconf : ∀ t ∈ tris, inTri tol t px py = true → ∃ q ∈ t.corners, q.1 = px ∧ q.2.1 = py) :
+    mapMesh2 tol tris px py = some (f px py) :=
+  mapMesh2_same_point tol htol tris f px py hnd hval hvert hconf
+
+theorem mapMesh_outside_iff_2d (tol : ℝ) (tris : List (Tri ℝ)) (px py : ℝ) :
+    mapMesh2 tol tris px py = none ↔ ∀ t ∈ tris, inTri tol t px py = false :=
+  mapMesh2_eq_none_iff tol tris px py
+
+/-- Non-vacuity: the unit square split into two triangles, `f = 2x + 3y + 1`; the centre of the square lies on the
+common edge (in both triangles) and gets `3.5`; the corner `(1, 1)` belongs to the second triangle only. -/
+example : mapMesh2 (1 / 10 ^ 9) ([⟨0, 0, 1, 0, 0, 1, 1, 3, 4⟩, ⟨1, 0, 1, 1, 0, 1, 3, 6, 4⟩] : List (Tri ℝ)) (1 / 2) (1 / 2)
+    = some (2 * (1 / 2) + 3 * (1 / 2) + 1) := by
+  apply mapMesh_linear_interior_2d _ (by positivity)
+  · intro t ht; simp at ht; rcases ht with rfl | rfl <;> norm_num [Tri.det, det2]
+  · intro t ht q hq; simp at ht
+    rcases ht with rfl | rfl <;> simp [Tri.corners] at hq <;> rcases hq with rfl | rfl | rfl <;> norm_num
+  · refine ⟨⟨0, 0, 1, 0, 0, 1, 1, 3, 4⟩, by simp, ?_⟩
+    norm_num [inTri, baryWeights2, det2]
 
 /-! ## hot spots -/
 
@@ -366,7 +444,7 @@ example : Step ([⟨1, 10, 5⟩, ⟨2, 10, 4⟩, ⟨2, 20, 4⟩, ⟨3, 20, 1⟩]
 
 end HotSpot
 
-/-! ## surface of a hexahedral block -/
+/-! ## (d) surface of a hexahedral block -/
 
 /-- PARTIAL.  Full statement of the property: `Surface3D.is_at_surface` flags a node of a (perturbed) hexahedral
 block iff it lies on the boundary.  Proved here is the combinatorial half the model carries: a grid node
@@ -395,5 +473,32 @@ theorem surface_block_interior_iff_partial (nx ny nz i j k : Nat) :
     rw [if_pos h2, if_pos ⟨h1, le_of_lt h2⟩, if_pos h4, if_pos ⟨h3, le_of_lt h4⟩, if_pos h6, if_pos ⟨h5, le_of_lt h6⟩]
 
 example : incidentCount 2 2 2 1 1 1 = 8 ∧ incidentCount 2 2 2 0 1 1 = 4 ∧ incidentCount 3 2 2 3 2 0 = 1 := by decide
+
+
+/-- The function the driver runs: `surfaceFlags` (a node is flagged iff fewer than 8 distinct element ids occur in its
+rows) on the rows of an `nx × ny × nz` hexahedral block under ANY injective node / element numbering and ANY row order
+flags the node at grid position `(i, j, k)` iff it is not interior.  PARTIAL in the same sense as above: this is the
+model's statement; that the code's solid-angle sum is `< 4π − 1e-5` exactly at those nodes is decided by
+correspondence + oracle. -/
+theorem surfaceFlags_block_partial (nx ny nz : Nat) (nid eid : Nat → Int)
+    (hn : Function.Injective nid) (he : Function.Injective eid)
+    (rows : List (Int × Int)) (hperm : rows.Perm (blockRows nx ny nz nid eid))
+    (i j k : Nat) (hi : i ≤ nx) (hj : j ≤ ny) (hk : k ≤ nz) (b : Bool)
+    (hmem : (nid (gridNode nx ny i j k), b) ∈ surfaceFlags rows) :
+    b = true ↔ ¬ ((0 < i ∧ i < nx) ∧ (0 < j ∧ j < ny) ∧ (0 < k ∧ k < nz)) :=
+  surfaceFlags_block nx ny nz nid eid hn he rows hperm i j k hi hj hk b hmem
+
+/-- … and every grid node has a row in the result (so the statement above is not about an empty list). -/
+theorem surfaceFlags_block_covers (nx ny nz : Nat) (nid eid : Nat → Int)
+    (rows : List (Int × Int)) (hperm : rows.Perm (blockRows nx ny nz nid eid))
+    (hx : 0 < nx) (hy : 0 < ny) (hz : 0 < nz)
+    (i j k : Nat) (hi : i ≤ nx) (hj : j ≤ ny) (hk : k ≤ nz) :
+    ∃ b, (nid (gridNode nx ny i j k), b) ∈ surfaceFlags rows :=
+  Mesh.surfaceFlags_block_covers nx ny nz nid eid rows hperm hx hy hz i j k hi hj hk
+
+/-- Non-vacuity: the 2×2×2 block with node ids `3n + 7` and descending element ids `100 − e`: 27 rows, exactly the
+centre node (grid number 13, id 46) is not flagged. -/
+example : (surfaceFlags (blockRows 2 2 2 (fun n => 3 * (n : Int) + 7) (fun e => 100 - (e : Int)))).filter (fun r => !r.2)
+    = [(46, false)] := by decide +kernel
 
 end PylifeVerif.C19
